@@ -216,7 +216,7 @@ Proof. exact exec_unclosed_begin. Qed.
    its tokens parse to the structured program, all counts are positive, exec() on the tokens IS its meaning, within the
    cost, and the keys sounded are c (d e d e d) f c (d e d e d) g *)
 Example C05_lexed_example :
-  (lex (mkLex 96 [] init_vars rhythm_rows) (zs "[2 c [3 d : e] : f] g") 0 = Ok (ex_toks, mkLex 96 [] init_vars rhythm_rows)) /\
+  (lex (mkLex 96 [] init_vars rhythm_rows false) (zs "[2 c [3 d : e] : f] g") 0 = Ok (ex_toks, mkLex 96 [] init_vars rhythm_rows false)) /\
   (parse_toks ex_toks = Some ex_p) /\ counts_pos ex_p /\
   (exec_f 2 100 ex_toks (Ok song_new)
    = sem tok (res song) (step_tok (exec_f 1 100)) RunCore.halted RunCore.count_of ex_p (Ok song_new)) /\
